@@ -1504,6 +1504,8 @@ func runC14(r *Rng, tier string, n int) {
 	runStreams(r, tier)
 	runRdataBounds(r, tier)
 	runUDPSizes(r, tier)
+	runShutdownWindow(r, tier)
+	runParkedHandlers(r, tier)
 	runMuxReentrant(r, tier)
 	runMuxDirected()
 	runMuxCaseSweep()
